@@ -609,3 +609,92 @@ func queryOf(raw, key string) string {
 	}
 	return ""
 }
+
+// Cancellation (C04): the caller's context is cancelled at a symbolic request
+// position of a copy between a registry and a layout (either direction) or two
+// registries. Whatever the copy then reports, every manifest stored at the
+// target is complete; a copy that reports an error has not moved the tag; a
+// copy that reports success has delivered everything.
+func ZZC03_copy_cancel() {
+	zzSmall = true
+	w := zzBuildWorld()
+	ra, rb := zzreg.New(zzHostA), zzreg.New(zzHostB)
+	ra.ValidateRefs, rb.ValidateRefs = false, false
+	net := &zzNet{regs: map[string]*zzreg.Registry{zzHostA: ra, zzHostB: rb}, ext: map[string][]byte{}}
+	reghttp.ZZHook_Client_Do = net.do
+	var rSrc, rTgt ref.Ref
+	toLayout := false
+	switch zzInt("pairing", 0, 2) {
+	case 0:
+		rSrc, _ = ref.New("ocidir://" + zzSrc + ":v1")
+		rTgt, _ = ref.New(zzHostA + "/tgt:v1")
+	case 1:
+		w.zzLoadRepo(rb, "src", "v1")
+		rSrc, _ = ref.New(zzHostB + "/src:v1")
+		rTgt, _ = ref.New(zzHostA + "/tgt:v1")
+	case 2:
+		w.zzLoadRepo(ra, "src", "v1")
+		rSrc, _ = ref.New(zzHostA + "/src:v1")
+		rTgt, _ = ref.New("ocidir://" + zzTgt + ":v1")
+		toLayout = true
+	}
+	ctx, cancel := context.WithCancel(context.Background())
+	defer cancel()
+	cancelAt := zzInt("cancel_at", 0, 14+16*zzTier())
+	calls := 0
+	before := func(c context.Context, req *reghttp.Req, ev *zzreg.Event) int {
+		zzTurnSig(zzSigOf(ev))
+		if calls == cancelAt {
+			zzReach("cancelled_midway")
+			cancel()
+		}
+		calls++
+		return 0
+	}
+	ra.Before, rb.Before = before, before
+	ra.OnCommit = func(kind, repo, dg string, body []byte) {
+		if kind == "manifest" {
+			zzAssert(ra.Repo(repo).RefsPresent(body), "C04_children_before_parents")
+		}
+	}
+	zzos.Cur.Observer = func(op zzos.Op) {
+		if op.Kind == "rename" && strings.HasPrefix(op.Path2, zzTgt+"/blobs/") && w.mans[digest.Digest("sha256:"+op.Path2[strings.LastIndex(op.Path2, "/")+1:])] {
+			data, _ := zzos.Cur.Data(op.Path)
+			zzAssert(zzRefsPresent(zzTgt, data), "C04_children_before_parents")
+		}
+	}
+	rc := New(WithRegOpts(reg.WithTransport(&http.Transport{})), WithSlog(slog.New(slog.NewTextHandler(io.Discard, nil))))
+	err := rc.ImageCopy(ctx, rSrc, rTgt)
+	ra.Before, rb.Before, ra.OnCommit = nil, nil, nil
+	zzos.Cur.Observer = nil
+	zzReach("cancel_copy_returned")
+	var now digest.Digest
+	if toLayout {
+		now = zzTagOf(zzTgt)
+	} else {
+		now = digest.Digest(ra.Repo("tgt").Tags["v1"])
+		rp := ra.Repo("tgt")
+		for _, b := range rp.Manifests {
+			zzAssert(rp.RefsPresent(b), "C04_target_manifests_are_complete")
+		}
+	}
+	if err != nil {
+		zzReach("cancel_copy_failed")
+		zzAssert(now == "", "C04_failed_copy_leaves_tag_alone")
+		return
+	}
+	zzReach("cancel_copy_succeeded")
+	zzAssert(now == w.top.Digest, "C03_target_tag_is_source_digest")
+	for _, d := range w.all {
+		var got []byte
+		var ok bool
+		if toLayout {
+			got, ok = zzos.Cur.Data(zzBlobFile(zzTgt, d))
+		} else if w.mans[d] {
+			got, ok = ra.Repo("tgt").Manifests[d.String()]
+		} else {
+			got, ok = ra.Repo("tgt").Blobs[d.String()]
+		}
+		zzAssert(ok && string(got) == string(w.bytes[d]), "C03_closure_present_and_identical")
+	}
+}
